@@ -1,5 +1,701 @@
+//! C16 — btor2 witness text round-trips.
+
+use baa::{ArrayOps, BitVecOps};
+use patronus::btor2::{parse_witness, parse_witnesses, witness_to_string};
+use patronus::mc::{InitValue, Witness};
+use pvcore::bv::{Arr, Bv};
+use pvcore::evalref::{arr_to_baa, baa_to_bv, bv_to_baa};
 use pvcore::run::*;
-use serde_json::Value;
-pub fn meta(_rep: &mut Report) {}
-pub fn run(_opts: &Opts, _rep: &Report) {}
-pub fn replay(_case: &Value, _rep: &Report) {}
+use pvcore::terms::{all_values, bnd_values};
+use rayon::prelude::*;
+use serde_json::{Value, json};
+use std::collections::{BTreeMap, BTreeSet};
+
+pub fn meta(rep: &mut Report) {
+    rep.rule = "complete witnesses: 0-2 states over {bv1, bv3, bv64, bv65, array 1->2, 2->1, 3->8} (arrays with 0-4 recorded indices incl. data 0, unsorted and repeated indices, nonzero default, sparse and dense representation), 0-2 bit-vector inputs over {1,3,64,65}, 1-3 frames, failed sets = non-empty subsets of {0,1,7}, names None / simple / with $ . [ ] (sub-class: names containing @ or #); values swept over the boundary alphabet (every value of every type appears as a state value and as an input value in the first and in a later frame); and all concatenations of 1-3 witnesses of a reduced set read with parse_witnesses(n) for n = 1, count, count+1. Each witness: witness_to_string -> parse_witness; field-wise comparison, arrays compared at every recorded index. distinct_nontrivial = distinct witness texts that were read back.".into();
+    rep.assumptions = vec![
+        "complete witnesses only: non-empty failed set, at least one frame, a value for every input in every frame".into(),
+        "a None name is expected back as the printer's default `state_<i>` / `input_<i>`".into(),
+        "an array state without recorded indices has no text representation: it is expected back as no value / an empty entry set, its name is not compared, and when it is the last state the init vector may be shorter".into(),
+        "array inputs are not printable (documented todo!) and are outside the space; names with whitespace are outside the space".into(),
+    ];
+}
+
+// ------------------------------------------------------------------ witness specs
+
+#[derive(Clone, Debug, PartialEq)]
+pub enum SVal {
+    Bv(Bv),
+    /// array = default + stores (applied in order); `indices` = recorded index list as given
+    Arr { iw: u32, dw: u32, default: Bv, stores: Vec<(Bv, Bv)>, indices: Vec<Bv>, dense: bool },
+}
+
+#[derive(Clone, Debug, PartialEq)]
+pub struct WSpec {
+    pub failed: Vec<u32>,
+    pub states: Vec<(Option<String>, SVal)>,
+    pub inputs: Vec<(Option<String>, u32)>,
+    /// frames[k][i] = value of input i at step k
+    pub frames: Vec<Vec<Bv>>,
+}
+
+fn bv_json(b: &Bv) -> Value {
+    json!({"w": b.w, "v": b.v.to_string()})
+}
+fn bv_from(v: &Value) -> Bv {
+    Bv::new(v["w"].as_u64().unwrap() as u32, v["v"].as_str().unwrap().parse().unwrap())
+}
+
+impl WSpec {
+    pub fn to_json(&self) -> Value {
+        json!({
+            "failed": self.failed,
+            "states": self.states.iter().map(|(n, v)| match v {
+                SVal::Bv(b) => json!({"name": n, "bv": bv_json(b)}),
+                SVal::Arr { iw, dw, default, stores, indices, dense } => json!({"name": n, "arr": {"iw": iw, "dw": dw, "default": bv_json(default), "dense": dense,
+                    "stores": stores.iter().map(|(i, d)| json!([bv_json(i), bv_json(d)])).collect::<Vec<_>>(),
+                    "indices": indices.iter().map(bv_json).collect::<Vec<_>>()}}),
+            }).collect::<Vec<_>>(),
+            "inputs": self.inputs.iter().map(|(n, w)| json!({"name": n, "w": w})).collect::<Vec<_>>(),
+            "frames": self.frames.iter().map(|f| f.iter().map(bv_json).collect::<Vec<_>>()).collect::<Vec<_>>(),
+        })
+    }
+    pub fn from_json(v: &Value) -> WSpec {
+        let name = |x: &Value| x["name"].as_str().map(|s| s.to_string());
+        WSpec {
+            failed: v["failed"].as_array().unwrap().iter().map(|x| x.as_u64().unwrap() as u32).collect(),
+            states: v["states"]
+                .as_array()
+                .unwrap()
+                .iter()
+                .map(|s| {
+                    if s.get("bv").is_some() {
+                        (name(s), SVal::Bv(bv_from(&s["bv"])))
+                    } else {
+                        let a = &s["arr"];
+                        (
+                            name(s),
+                            SVal::Arr {
+                                iw: a["iw"].as_u64().unwrap() as u32,
+                                dw: a["dw"].as_u64().unwrap() as u32,
+                                default: bv_from(&a["default"]),
+                                dense: a["dense"].as_bool().unwrap_or(false),
+                                stores: a["stores"].as_array().unwrap().iter().map(|p| (bv_from(&p[0]), bv_from(&p[1]))).collect(),
+                                indices: a["indices"].as_array().unwrap().iter().map(bv_from).collect(),
+                            },
+                        )
+                    }
+                })
+                .collect(),
+            inputs: v["inputs"].as_array().unwrap().iter().map(|i| (name(i), i["w"].as_u64().unwrap() as u32)).collect(),
+            frames: v["frames"].as_array().unwrap().iter().map(|f| f.as_array().unwrap().iter().map(bv_from).collect()).collect(),
+        }
+    }
+
+    pub fn build(&self) -> Witness {
+        let mut w = Witness::default();
+        w.failed_safety = self.failed.clone();
+        for (n, v) in self.states.iter() {
+            w.init_names.push(n.clone());
+            w.init.push(match v {
+                SVal::Bv(b) => InitValue::BitVec(bv_to_baa(b)),
+                SVal::Arr { .. } => {
+                    let a = arr_of(v);
+                    let SVal::Arr { indices, dense, .. } = v else { unreachable!() };
+                    InitValue::Array(arr_to_baa(&a, *dense), indices.iter().map(bv_to_baa).collect())
+                }
+            });
+        }
+        for (n, _) in self.inputs.iter() {
+            w.input_names.push(n.clone());
+        }
+        for f in self.frames.iter() {
+            w.inputs.push(f.iter().map(|b| Some(baa::Value::BitVec(bv_to_baa(b)))).collect());
+        }
+        w
+    }
+}
+
+fn arr_of(v: &SVal) -> Arr {
+    let SVal::Arr { iw, default, stores, .. } = v else { panic!("not an array") };
+    let mut a = Arr::constant(*iw, default);
+    for (i, d) in stores {
+        a = a.store(i, d);
+    }
+    a
+}
+
+// ------------------------------------------------------------------ oracle
+
+fn name_class(n: &Option<String>) -> &'static str {
+    match n {
+        None => "noname",
+        Some(s) if s.contains('@') || s.contains('#') => "name-at-hash",
+        Some(s) if s.chars().all(|c| c.is_ascii_alphanumeric() || c == '_') => "name-simple",
+        Some(_) => "name-special",
+    }
+}
+
+fn type_class(v: &SVal) -> String {
+    match v {
+        SVal::Bv(b) => format!("bv|{}", wclass(b.w)),
+        SVal::Arr { iw, dw, indices, .. } => format!("arr{iw}_{dw}-{}idx|{}", indices.iter().collect::<BTreeSet<_>>().len().min(2), wclass(*dw)),
+    }
+}
+
+/// field-wise comparison of a read-back witness with the specification it was printed from
+pub fn compare(spec: &WSpec, got: &Witness) -> Option<(String, String)> {
+    if got.failed_safety != spec.failed {
+        return Some(("failed-set||".into(), format!("failed properties {:?} read back as {:?}", spec.failed, got.failed_safety)));
+    }
+    // states
+    let degenerate = |v: &SVal| matches!(v, SVal::Arr { indices, .. } if indices.is_empty());
+    let min_len = spec.states.iter().rposition(|(_, v)| !degenerate(v)).map(|p| p + 1).unwrap_or(0);
+    if got.init.len() > spec.states.len() || got.init.len() < min_len || got.init_names.len() != got.init.len() {
+        return Some(("init-count||".into(), format!("{} states written, {} values and {} names read back", spec.states.len(), got.init.len(), got.init_names.len())));
+    }
+    for (i, (name, v)) in spec.states.iter().enumerate() {
+        let tc = type_class(v);
+        let nc = name_class(name);
+        if i >= got.init.len() {
+            continue;
+        }
+        if !degenerate(v) {
+            let want = name.clone().unwrap_or(format!("state_{i}"));
+            if got.init_names[i].as_deref() != Some(want.as_str()) {
+                return Some((format!("state-name|{tc}|{nc}"), format!("state {i} named `{want}` is read back as {:?}", got.init_names[i])));
+            }
+        }
+        match (v, &got.init[i]) {
+            (SVal::Bv(b), InitValue::BitVec(g)) => {
+                let g = baa_to_bv(g);
+                if g != *b {
+                    return Some((format!("state-value|{tc}|"), format!("state {i} = {} is read back as {}", b.show(), g.show())));
+                }
+            }
+            (SVal::Arr { iw, dw, indices, .. }, InitValue::Array(ga, gi)) => {
+                let a = arr_of(v);
+                if ga.index_width() != *iw || ga.data_width() != *dw {
+                    return Some((format!("array-type|{tc}|"), format!("state {i}: array {iw}->{dw} read back as {}->{}", ga.index_width(), ga.data_width())));
+                }
+                let want_idx: BTreeSet<Bv> = indices.iter().cloned().collect();
+                let got_idx: BTreeSet<Bv> = gi.iter().map(baa_to_bv).collect();
+                if want_idx != got_idx {
+                    return Some((
+                        format!("array-indices|{tc}|"),
+                        format!("state {i}: recorded indices {:?} read back as {:?}", want_idx.iter().map(|b| b.v.to_string()).collect::<Vec<_>>(), got_idx.iter().map(|b| b.v.to_string()).collect::<Vec<_>>()),
+                    ));
+                }
+                for ix in want_idx.iter() {
+                    let want = a.select(ix);
+                    let g = baa_to_bv(&ga.select(&bv_to_baa(ix)));
+                    if g != want {
+                        return Some((format!("array-entry|{tc}|"), format!("state {i}: entry [{}] = {} is read back as {}", ix.v, want.show(), g.show())));
+                    }
+                }
+            }
+            (SVal::Arr { indices, .. }, InitValue::None) if indices.is_empty() => {}
+            (_, g) => {
+                return Some((format!("state-kind|{tc}|"), format!("state {i} ({tc}) is read back as {g:?}")));
+            }
+        }
+    }
+    // inputs
+    if got.inputs.len() != spec.frames.len() {
+        return Some(("frame-count||".into(), format!("{} frames written, {} read back", spec.frames.len(), got.inputs.len())));
+    }
+    for (k, f) in spec.frames.iter().enumerate() {
+        if got.inputs[k].len() != f.len() {
+            return Some(("input-count||".into(), format!("frame {k}: {} input values written, {} read back", f.len(), got.inputs[k].len())));
+        }
+        for (i, b) in f.iter().enumerate() {
+            match &got.inputs[k][i] {
+                Some(baa::Value::BitVec(g)) if baa_to_bv(g) == *b => {}
+                o => return Some((format!("input-value|bv|{}", wclass(b.w)), format!("input {i} at step {k} = {} is read back as {o:?}", b.show()))),
+            }
+        }
+    }
+    if got.input_names.len() != spec.inputs.len() {
+        return Some(("input-name-count||".into(), format!("{} inputs written, {} names read back", spec.inputs.len(), got.input_names.len())));
+    }
+    for (i, (name, w)) in spec.inputs.iter().enumerate() {
+        let want = name.clone().unwrap_or(format!("input_{i}"));
+        if got.input_names[i].as_deref() != Some(want.as_str()) {
+            return Some((format!("input-name|bv|{}|{}", wclass(*w), name_class(name)), format!("input {i} named `{want}` is read back as {:?}", got.input_names[i])));
+        }
+    }
+    None
+}
+
+/// round trip of one witness; Ok(text) or failure (class, what)
+pub fn check_one(spec: &WSpec) -> Result<String, (String, String)> {
+    let w = spec.build();
+    let text = match catch(|| witness_to_string(&w)) {
+        Ok(t) => t,
+        Err(p) => return Err((format!("panic-print|{}||", p.file()), format!("witness_to_string panicked: {} ({})", p.msg, p.short_loc()))),
+    };
+    let got = match catch(|| parse_witness(&mut text.as_bytes())) {
+        Ok(Ok(g)) => g,
+        Ok(Err(e)) => return Err(("read-error|||".into(), format!("parse_witness returned an error on the printed text: {e}"))),
+        Err(p) => {
+            let nc = spec.states.iter().map(|s| name_class(&s.0)).chain(spec.inputs.iter().map(|s| name_class(&s.0))).find(|c| *c == "name-at-hash").unwrap_or("");
+            return Err((format!("panic-read|{}||{nc}", p.file()), format!("parse_witness panicked on the printed text `{}`: {} ({})", text.replace('\n', " / "), p.msg, p.short_loc())));
+        }
+    };
+    match compare(spec, &got) {
+        None => Ok(text),
+        Some((c, m)) => Err((c, format!("{m}; text: `{}`", text.trim_end().replace('\n', " / ")))),
+    }
+}
+
+// ------------------------------------------------------------------ shrinking
+
+fn shrink(spec: &WSpec, class: &str) -> WSpec {
+    let same = |s: &WSpec| matches!(check_one(s), Err((c, _)) if c == class);
+    let mut cur = spec.clone();
+    let mut changed = true;
+    while changed {
+        changed = false;
+        let mut cands: Vec<WSpec> = vec![];
+        for i in 0..cur.states.len() {
+            let mut c = cur.clone();
+            c.states.remove(i);
+            cands.push(c);
+        }
+        for i in 0..cur.inputs.len() {
+            let mut c = cur.clone();
+            c.inputs.remove(i);
+            for f in c.frames.iter_mut() {
+                f.remove(i);
+            }
+            cands.push(c);
+        }
+        if cur.frames.len() > 1 {
+            for k in 0..cur.frames.len() {
+                let mut c = cur.clone();
+                c.frames.remove(k);
+                cands.push(c);
+            }
+        }
+        if cur.failed.len() > 1 {
+            for k in 0..cur.failed.len() {
+                let mut c = cur.clone();
+                c.failed.remove(k);
+                cands.push(c);
+            }
+        }
+        if cur.failed != vec![0] {
+            let mut c = cur.clone();
+            c.failed = vec![0];
+            cands.push(c);
+        }
+        for i in 0..cur.states.len() {
+            if cur.states[i].0.is_some() {
+                let mut c = cur.clone();
+                c.states[i].0 = None;
+                cands.push(c);
+            }
+            if let SVal::Arr { indices, stores, .. } = &cur.states[i].1 {
+                for k in 0..indices.len() {
+                    let mut c = cur.clone();
+                    if let SVal::Arr { indices, .. } = &mut c.states[i].1 {
+                        indices.remove(k);
+                    }
+                    cands.push(c);
+                }
+                for k in 0..stores.len() {
+                    let mut c = cur.clone();
+                    if let SVal::Arr { stores, .. } = &mut c.states[i].1 {
+                        stores.remove(k);
+                    }
+                    cands.push(c);
+                }
+            }
+        }
+        for i in 0..cur.inputs.len() {
+            if cur.inputs[i].0.is_some() {
+                let mut c = cur.clone();
+                c.inputs[i].0 = None;
+                cands.push(c);
+            }
+        }
+        for c in cands {
+            if same(&c) {
+                cur = c;
+                changed = true;
+                break;
+            }
+        }
+    }
+    cur
+}
+
+fn report(spec: &WSpec, order: u64, rep: &Report) -> bool {
+    match check_one(spec) {
+        Ok(_) => true,
+        Err((class, _)) => {
+            let min = shrink(spec, &class);
+            let (c2, what) = match check_one(&min) {
+                Err(x) => x,
+                Ok(_) => unreachable!(),
+            };
+            rep.violation(Violation { sig: format!("C16|{c2}"), what, case: json!({"witness": min.to_json(), "found_in": spec.to_json()}), order });
+            false
+        }
+    }
+}
+
+// ------------------------------------------------------------------ enumeration
+
+#[derive(Clone, Copy, Debug, PartialEq)]
+enum STy {
+    Bv(u32),
+    Arr(u32, u32),
+}
+
+const STYS: [STy; 7] = [STy::Bv(1), STy::Bv(3), STy::Bv(64), STy::Bv(65), STy::Arr(1, 2), STy::Arr(2, 1), STy::Arr(3, 8)];
+const IWS: [u32; 4] = [1, 3, 64, 65];
+
+fn bv_alphabet(w: u32) -> Vec<Bv> {
+    if w <= 3 { all_values(w) } else { bnd_values(w) }
+}
+
+/// the array value alphabet of a type
+fn arr_alphabet(iw: u32, dw: u32) -> Vec<SVal> {
+    let ix = |v: u64| Bv::from_u64(iw, v);
+    let max = (1u64 << iw) - 1;
+    let d = |v: u64| Bv::from_u64(dw, v & ((1u64 << dw) - 1));
+    let dmax = (1u64 << dw) - 1;
+    let mut out = vec![];
+    let index_lists: Vec<Vec<u64>> = {
+        let mut v = vec![vec![], vec![0], vec![max], vec![0, max], vec![max, 0], vec![max, max], vec![0, max, 0]];
+        if iw >= 2 {
+            v.push(vec![0, 1, 2, 3]);
+            v.push(vec![3, 1, 2, 0]);
+            v.push(vec![2, 1]);
+        }
+        if iw >= 3 {
+            v.push(vec![7, 5, 3, 1]);
+            v.push(vec![4, 4, 6, 2]);
+        }
+        v
+    };
+    for idx in index_lists.iter() {
+        // data patterns at the recorded indices: all zero, all ones, distinct, and "only the last nonzero"
+        let pats: Vec<Box<dyn Fn(usize, u64) -> u64>> = vec![Box::new(|_, _| 0), Box::new(move |_, _| dmax), Box::new(|k, i| (i + k as u64 + 1)), Box::new(move |k, _| if k == 0 { 0 } else { dmax })];
+        for (pi, p) in pats.iter().enumerate() {
+            for (default, dense) in [(0u64, false), (dmax, false), (1, true)] {
+                if idx.is_empty() && pi > 0 {
+                    continue;
+                }
+                let mut stores = vec![];
+                let mut seen = BTreeMap::new();
+                for (k, i) in idx.iter().enumerate() {
+                    // one value per index (an array is a function)
+                    let val = *seen.entry(*i).or_insert_with(|| p(k, *i));
+                    stores.push((ix(*i), d(val)));
+                }
+                // an entry that is stored but not recorded must not matter
+                if iw >= 2 && !idx.contains(&1) && pi == 2 {
+                    stores.push((ix(1), d(dmax)));
+                }
+                out.push(SVal::Arr { iw, dw, default: d(default), stores, indices: idx.iter().map(|i| ix(*i)).collect(), dense });
+            }
+        }
+    }
+    out
+}
+
+fn state_alphabet(t: STy) -> Vec<SVal> {
+    match t {
+        STy::Bv(w) => bv_alphabet(w).into_iter().map(SVal::Bv).collect(),
+        STy::Arr(i, d) => arr_alphabet(i, d),
+    }
+}
+
+fn names(kind: usize, prefix: &str, i: usize) -> Option<String> {
+    match kind {
+        0 => None,
+        1 => Some(format!("{prefix}{i}")),
+        2 => Some(format!("${prefix}.a[{i}]")),
+        3 => Some(format!("{prefix}@b{i}")),
+        _ => Some(format!("{prefix}#{i}")),
+    }
+}
+
+pub fn enumerate(thorough: bool) -> Vec<WSpec> {
+    let mut out: Vec<WSpec> = vec![];
+    let failed_sets: Vec<Vec<u32>> = vec![vec![0], vec![1], vec![7], vec![0, 1], vec![0, 7], vec![1, 7], vec![0, 1, 7], vec![7, 0]];
+    let name_kinds: Vec<usize> = vec![0, 1, 2, 3, 4];
+    // (a) value sweep: every value of every state type / input width, alone and next to a neighbour
+    for t in STYS {
+        for (vi, v) in state_alphabet(t).into_iter().enumerate() {
+            for nk in [0usize, 1, 2] {
+                out.push(WSpec { failed: vec![0], states: vec![(names(nk, "s", 0), v.clone())], inputs: vec![], frames: vec![vec![]] });
+            }
+            // as second state after a bv1 state, with one input
+            out.push(WSpec {
+                failed: failed_sets[vi % failed_sets.len()].clone(),
+                states: vec![(names(1, "s", 0), SVal::Bv(Bv::from_u64(1, (vi % 2) as u64))), (names(2, "s", 1), v.clone())],
+                inputs: vec![(names(1, "i", 0), 3)],
+                frames: vec![vec![Bv::from_u64(3, (vi % 8) as u64)], vec![Bv::from_u64(3, ((vi + 3) % 8) as u64)]],
+            });
+        }
+    }
+    for w in IWS {
+        let al = bv_alphabet(w);
+        for (vi, v) in al.iter().enumerate() {
+            for nk in [0usize, 1, 2] {
+                // value in frame 0, in frame 1 of 2, and as second input
+                out.push(WSpec { failed: vec![1], states: vec![], inputs: vec![(names(nk, "i", 0), w)], frames: vec![vec![v.clone()]] });
+                out.push(WSpec { failed: vec![7], states: vec![], inputs: vec![(names(nk, "i", 0), w)], frames: vec![vec![al[(vi + 1) % al.len()].clone()], vec![v.clone()]] });
+                out.push(WSpec {
+                    failed: vec![0, 7],
+                    states: vec![(names(nk, "s", 0), SVal::Bv(v.clone()))],
+                    inputs: vec![(names(1, "a", 0), 1), (names(nk, "i", 1), w)],
+                    frames: vec![vec![Bv::from_u64(1, 1), v.clone()], vec![Bv::from_u64(1, 0), al[(vi + 2) % al.len()].clone()], vec![Bv::from_u64(1, 1), v.clone()]],
+                });
+            }
+        }
+    }
+    // (b) shape product: state types x input widths x frames x failed sets x name kinds, values
+    //     rotate through the alphabets with the enumeration index
+    let mut state_cfgs: Vec<Vec<STy>> = vec![vec![]];
+    for a in STYS {
+        state_cfgs.push(vec![a]);
+    }
+    for a in STYS {
+        for b in STYS {
+            state_cfgs.push(vec![a, b]);
+        }
+    }
+    let mut input_cfgs: Vec<Vec<u32>> = vec![vec![]];
+    for a in IWS {
+        input_cfgs.push(vec![a]);
+    }
+    for a in IWS {
+        for b in IWS {
+            input_cfgs.push(vec![a, b]);
+        }
+    }
+    let alph: BTreeMap<String, Vec<SVal>> = STYS.iter().map(|t| (format!("{t:?}"), state_alphabet(*t))).collect();
+    let mut n = 0usize;
+    for sc in state_cfgs.iter() {
+        for ic in input_cfgs.iter() {
+            for nframes in 1..=3usize {
+                for (fi, failed) in failed_sets.iter().enumerate() {
+                    // quick: failed sets rotate with the shape; thorough: full product
+                    if !thorough && (fi + n) % 4 != 0 {
+                        n += 1;
+                        continue;
+                    }
+                    for &nk in name_kinds.iter() {
+                        n += 1;
+                        let states: Vec<(Option<String>, SVal)> = sc
+                            .iter()
+                            .enumerate()
+                            .map(|(i, t)| {
+                                let a = &alph[&format!("{t:?}")];
+                                (names(if i == 0 { nk } else { (nk + 1) % 3 }, "s", i), a[(n * 7 + i * 3) % a.len()].clone())
+                            })
+                            .collect();
+                        let inputs: Vec<(Option<String>, u32)> = ic.iter().enumerate().map(|(i, w)| (names(if i == 1 { nk } else { (nk + 2) % 3 }, "in", i), *w)).collect();
+                        let frames: Vec<Vec<Bv>> = (0..nframes)
+                            .map(|k| {
+                                ic.iter()
+                                    .enumerate()
+                                    .map(|(i, w)| {
+                                        let a = bv_alphabet(*w);
+                                        a[(n * 5 + k * 11 + i) % a.len()].clone()
+                                    })
+                                    .collect()
+                            })
+                            .collect();
+                        out.push(WSpec { failed: failed.clone(), states, inputs, frames });
+                    }
+                }
+            }
+        }
+    }
+    out
+}
+
+/// reduced set for concatenation
+fn concat_base() -> Vec<WSpec> {
+    let arr = arr_alphabet(2, 1);
+    vec![
+        WSpec { failed: vec![0], states: vec![], inputs: vec![], frames: vec![vec![]] },
+        WSpec { failed: vec![1, 7], states: vec![(Some("s".into()), SVal::Bv(Bv::from_u64(3, 5)))], inputs: vec![], frames: vec![vec![], vec![]] },
+        WSpec { failed: vec![7], states: vec![], inputs: vec![(None, 1)], frames: vec![vec![Bv::from_u64(1, 1)], vec![Bv::from_u64(1, 0)]] },
+        WSpec { failed: vec![0, 1], states: vec![(None, arr[arr.len() / 2].clone()), (Some("$x.y[1]".into()), SVal::Bv(Bv::from_u64(65, 1 << 40)))], inputs: vec![(Some("i".into()), 64), (Some("j".into()), 3)], frames: vec![vec![Bv::from_u64(64, u64::MAX), Bv::from_u64(3, 2)]] },
+        WSpec { failed: vec![1], states: vec![(Some("m".into()), arr[7].clone())], inputs: vec![(Some("k".into()), 3)], frames: vec![vec![Bv::from_u64(3, 0)], vec![Bv::from_u64(3, 7)], vec![Bv::from_u64(3, 1)]] },
+        WSpec { failed: vec![0, 1, 7], states: vec![(Some("b".into()), SVal::Bv(Bv::from_u64(1, 0))), (Some("c".into()), SVal::Bv(Bv::from_u64(1, 1)))], inputs: vec![], frames: vec![vec![]] },
+    ]
+}
+
+fn check_concat(specs: &[WSpec]) -> Result<String, (String, String)> {
+    let mut text = String::new();
+    for s in specs {
+        text += &witness_to_string(&s.build());
+    }
+    let shown = text.trim_end().replace('\n', " / ");
+    for n in [1usize, specs.len(), specs.len() + 1] {
+        let want = n.min(specs.len());
+        let got = match catch(|| parse_witnesses(&mut text.as_bytes(), n)) {
+            Ok(Ok(g)) => g,
+            Ok(Err(e)) => return Err(("concat-read-error|||".into(), format!("parse_witnesses({n}) returned an error: {e}; text `{shown}`"))),
+            Err(p) => return Err((format!("concat-panic-read|{}||", p.file()), format!("parse_witnesses({n}) panicked: {} ({}); text `{shown}`", p.msg, p.short_loc()))),
+        };
+        if got.len() != want {
+            return Err(("concat-count|||".into(), format!("parse_witnesses({n}) on {} concatenated witnesses returned {} instead of {want}; text `{shown}`", specs.len(), got.len())));
+        }
+        for (k, (s, g)) in specs.iter().zip(got.iter()).enumerate() {
+            if let Some((c, m)) = compare(s, g) {
+                return Err((format!("concat-{c}"), format!("witness #{k} of {} read with parse_witnesses({n}): {m}; text `{shown}`", specs.len())));
+            }
+        }
+    }
+    // parse_witness = first one
+    match catch(|| parse_witness(&mut text.as_bytes())) {
+        Ok(Ok(g)) => {
+            if let Some((c, m)) = compare(&specs[0], &g) {
+                return Err((format!("concat-first-{c}"), format!("parse_witness on a stream: {m}; text `{shown}`")));
+            }
+        }
+        Ok(Err(e)) => return Err(("concat-read-error|||".into(), format!("parse_witness returned an error: {e}"))),
+        Err(p) => return Err((format!("concat-panic-read|{}||", p.file()), format!("parse_witness panicked on a stream: {} ({})", p.msg, p.short_loc()))),
+    }
+    Ok(text)
+}
+
+pub fn run(opts: &Opts, rep: &Report) {
+    let tier = match opts.mode {
+        Mode::Run(t) => t,
+        _ => unreachable!(),
+    };
+    let budget = Budget::new(opts.budget_s);
+    let specs = enumerate(tier.is_thorough());
+    // ---- vacuity guards (enumerator side)
+    {
+        let mut kinds = BTreeSet::new();
+        let mut idx_counts = BTreeSet::new();
+        let mut zero_data = false;
+        let mut repeated = false;
+        let mut unsorted = false;
+        for s in specs.iter() {
+            for (n, v) in s.states.iter() {
+                kinds.insert(name_class(n));
+                if let SVal::Arr { indices, .. } = v {
+                    idx_counts.insert(indices.len());
+                    let a = arr_of(v);
+                    zero_data |= indices.iter().any(|i| a.select(i).is_zero());
+                    repeated |= indices.iter().collect::<BTreeSet<_>>().len() < indices.len();
+                    unsorted |= indices.windows(2).any(|w| w[0] > w[1]);
+                }
+            }
+            for (n, _) in s.inputs.iter() {
+                kinds.insert(name_class(n));
+            }
+        }
+        if kinds.len() != 4 || !idx_counts.contains(&0) || !idx_counts.contains(&4) || !zero_data || !repeated || !unsorted {
+            crate::util::machinery_failure(&format!("C16 enumerator degenerate: name classes {kinds:?}, index counts {idx_counts:?}, zero data {zero_data}, repeated {repeated}, unsorted {unsorted}"));
+        }
+        if !specs.iter().any(|s| s.frames.len() == 3) || !specs.iter().any(|s| s.states.len() == 2 && s.inputs.len() == 2) {
+            crate::util::machinery_failure("C16 enumerator never produced 3 frames / 2 states with 2 inputs");
+        }
+    }
+    rep.note("space", json!({"witnesses": specs.len()}));
+    for s in [&specs[3], &specs[specs.len() / 2]] {
+        rep.sample(json!({"witness": s.to_json(), "text": witness_to_string(&s.build())}));
+    }
+    let chunk = 4096;
+    for (ci, ch) in specs.chunks(chunk).enumerate() {
+        if budget.exceeded() {
+            rep.cap_hit(&format!("budget reached after {} of {} witnesses", ci * chunk, specs.len()));
+            break;
+        }
+        let res: Vec<Option<u64>> = ch
+            .par_iter()
+            .enumerate()
+            .map(|(i, s)| match check_one(s) {
+                Ok(t) => Some(hash64(&t)),
+                Err(_) => {
+                    report(s, (ci * chunk + i) as u64, rep);
+                    None
+                }
+            })
+            .collect();
+        rep.add("evaluations", ch.len() as u64);
+        rep.add("outcome:equal", res.iter().filter(|r| r.is_some()).count() as u64);
+        rep.add("outcome:fail", res.iter().filter(|r| r.is_none()).count() as u64);
+        rep.distinct_hashes(&res.iter().flatten().copied().collect::<Vec<_>>());
+    }
+    // ---- concatenations of 1..3 witnesses
+    let base = concat_base();
+    let mut seqs: Vec<Vec<usize>> = vec![];
+    for a in 0..base.len() {
+        seqs.push(vec![a]);
+        for b in 0..base.len() {
+            seqs.push(vec![a, b]);
+            for c in 0..base.len() {
+                seqs.push(vec![a, b, c]);
+            }
+        }
+    }
+    if tier.is_thorough() {
+        // streams over a wider base: every 97th enumerated witness
+        let wide: Vec<&WSpec> = specs.iter().step_by(97).filter(|s| check_one(s).is_ok()).take(40).collect();
+        let off = specs.len() as u64;
+        let pairs: Vec<(usize, usize)> = (0..wide.len()).flat_map(|a| (0..wide.len()).map(move |b| (a, b))).collect();
+        let fails: Vec<(u64, (String, String), Value)> = pairs
+            .par_iter()
+            .enumerate()
+            .filter_map(|(i, (a, b))| {
+                let v = vec![wide[*a].clone(), wide[*b].clone(), wide[(*a + *b) % wide.len()].clone()];
+                check_concat(&v).err().map(|e| (off + 1000 + i as u64, e, json!({"stream": v.iter().map(|s| s.to_json()).collect::<Vec<_>>()})))
+            })
+            .collect();
+        rep.add("evaluations", pairs.len() as u64);
+        rep.add("streams", pairs.len() as u64);
+        for (order, (c, what), case) in fails {
+            rep.violation(Violation { sig: format!("C16|{c}"), what, case, order });
+        }
+    }
+    let off = specs.len() as u64;
+    let res: Vec<Result<u64, (u64, (String, String), Value)>> = seqs
+        .par_iter()
+        .enumerate()
+        .map(|(i, q)| {
+            let v: Vec<WSpec> = q.iter().map(|k| base[*k].clone()).collect();
+            match check_concat(&v) {
+                Ok(t) => Ok(hash64(&t)),
+                Err(e) => Err((off + i as u64, e, json!({"stream": v.iter().map(|s| s.to_json()).collect::<Vec<_>>()}))),
+            }
+        })
+        .collect();
+    rep.add("evaluations", seqs.len() as u64);
+    rep.add("streams", seqs.len() as u64);
+    let mut hs = vec![];
+    for r in res {
+        match r {
+            Ok(h) => hs.push(h),
+            Err((order, (c, what), case)) => {
+                rep.add("outcome:fail", 1);
+                rep.violation(Violation { sig: format!("C16|{c}"), what, case, order });
+            }
+        }
+    }
+    rep.distinct_hashes(&hs);
+}
+
+pub fn replay(case: &Value, rep: &Report) {
+    if let Some(st) = case.get("stream") {
+        let v: Vec<WSpec> = st.as_array().unwrap().iter().map(WSpec::from_json).collect();
+        if let Err((c, what)) = check_concat(&v) {
+            rep.violation(Violation { sig: format!("C16|{c}"), what, case: case.clone(), order: 0 });
+        }
+    } else {
+        let s = WSpec::from_json(&case["witness"]);
+        report(&s, 0, rep);
+    }
+}
